@@ -106,8 +106,9 @@ package pool
 // the goroutine asking one host: exactly one "vipnode_disconnect" call for this client on the captured connection, whose
 // outcome is what it reports
 //@ func (*VipnodePool).disconnectPeers$1
-//@ property C03
+//@ property C03 C09
 //@ requires remote != nil
+//@ modifies effects, lastCallRecv, lastCallMethod, lastCallParams, lastCallOK, alloc
 //@ sendreq errCh [outcome-of-asking-this-host] : lastCallMethod == "vipnode_disconnect" && lastCallRecv == ref(remote)
 //@            && len(lastCallParams) == 1 && elems(lastCallParams)[off(lastCallParams)] == box(nodeID) && (sent == nil) == lastCallOK
 
@@ -154,9 +155,11 @@ package pool
 
 // the goroutine asking one host to whitelist the requester: it offers the host on acceptChan only after that host's own
 // connection acknowledged "vipnode_whitelist" for the requester's node id, and reports a failure otherwise
+// (the goroutine only talks to the host and reports the outcome: it leaves the registry and everything else alone)
 //@ func (*VipnodePool).requestHosts$1
-//@ property C08
+//@ property C08 C09
 //@ requires service != nil
+//@ modifies effects, lastCallRecv, lastCallMethod, lastCallParams, lastCallOK, alloc
 //@ sendreq acceptChan [acknowledged-before-offered] : sent == node && lastCallOK && lastCallMethod == "vipnode_whitelist" && lastCallRecv == ref(service)
 //@            && len(lastCallParams) == 1 && elems(lastCallParams)[off(lastCallParams)] == box(nodeID)
 //@ sendreq errChan [failure-reported-as-error] : sent != nil && !lastCallOK
